@@ -208,45 +208,125 @@ def run_cvc5(smt2_text, timeout_ms):
         os.unlink(fn)
 
 
-def discharge(ob, use_cvc5=True, z3_ms=None, cvc5_ms=None):
-    """Decide one obligation: proved | refuted | unknown."""
-    z3_ms = z3_ms or Z3_TIMEOUT_MS
-    cvc5_ms = cvc5_ms or CVC5_TIMEOUT_MS
-    f = to_z3(ob.formula)
-    c = as_const(f)
-    t0 = time.time()
-    if c is True:
-        ob.status, ob.solver, ob.ms = "proved", "trivial", 0.0
-        return ob
-    defs = getattr(ob, "defs", None) or []
-    # stage 1: definitions of named products abstracted away (congruence + sign facts suffice for most VCs and the
-    # query stays linear); unsat there is a proof.  stage 2: full definitions.
+def _z3_try(pc, defs, f, z3_ms, fast=False):
+    """staged z3 attempt: (status, model|None, reason, solver).  Every stage but the last works with FEWER hypotheses
+    (no quantified facts and/or no definitions of named products), so only its 'unsat' is used; a counter-model is only
+    taken from the last, complete, stage."""
+    from .ctx import _has_quant
     r = None
-    for stage in ((1, 2) if defs else (2,)):
+    s = None
+    qf = [h for h in pc if not _has_quant(h)]
+    stages = []
+    quant = len(qf) < len(pc)
+    if quant:
+        stages.append((qf, False, 1000))
+        # (then the same with the definitions; then:)
+        # z3's automatic configuration picks a set-up for quantified non-linear goals in which E-matching on the given
+        # triggers is not effective; the plain SMT core with auto_config off finds these instances at once
+        if defs:
+            stages.append((qf, True, 2000))
+        stages.append((pc, True, -3000))
+    if defs:
+        stages.append((pc, False, 1500))
+    stages.append((pc, True, z3_ms))
+    if fast:
+        stages = [(pc, True, -z3_ms if quant else z3_ms)]
+    for hyps, with_defs, ms in stages:
         s = z3.Solver()
-        s.set("timeout", z3_ms if stage == 2 else min(z3_ms, 4000))
+        if ms < 0:
+            s.set("smt.auto_config", False)
+            ms = -ms
+        s.set("timeout", min(z3_ms, ms))
         s.set("random_seed", 7)
-        s.add(*ob.pc)
-        if stage == 2:
+        s.add(*hyps)
+        if with_defs:
             s.add(*defs)
         s.add(z3.Not(f))
         r = s.check()
         if r == z3.unsat:
-            break
+            return "proved", None, "", s
+    if r == z3.sat:
+        try:
+            m = model_to_dict(s.model())
+        except Exception:
+            m = {}
+        return "refuted", m, "", s
+    return "unknown", None, f"z3: {s.reason_unknown()}", s
+
+
+def discharge(ob, use_cvc5=True, z3_ms=None, cvc5_ms=None, fast=False):
+    """Decide one obligation: proved | refuted | unknown.  Whole goal first (short budget), then conjunct by conjunct,
+    then cvc5 on what is still open."""
+    z3_ms = z3_ms or Z3_TIMEOUT_MS
+    cvc5_ms = cvc5_ms or CVC5_TIMEOUT_MS
+    f = to_z3(ob.formula)
+    t0 = time.time()
+    if as_const(f) is True:
+        ob.status, ob.solver, ob.ms = "proved", "trivial", 0.0
+        return ob
+    defs = getattr(ob, "defs", None) or []
+    from .ctx import Ctx
+    parts = Ctx._conjuncts(f)
+    from .ctx import _has_quant
+    quant = any(_has_quant(h) for h in ob.pc)
+    # with quantified hypotheses z3 gets a short first budget: cvc5 decides many of those in a second or two; z3 is asked
+    # again with its whole budget when cvc5 does not
+    first_ms = min(z3_ms, 3000) if (quant and use_cvc5 and len(parts) == 1) else z3_ms
+    if fast:       # one complete z3 query, nothing else (used once the task's verdict is settled)
+        st, model, reason, s = _z3_try(ob.pc, defs, f, z3_ms, fast=True)
+        ob.ms = (time.time() - t0) * 1000
+        ob.status, ob.solver = st, "z3"
+        ob.model = model if st == "refuted" else None
+        ob.reason = reason + " (reduced budget: the task already has a refuted or several undecided obligations)" if st == "unknown" else ""
+        return ob
+    st, model, reason, s = _z3_try(ob.pc, defs, f, first_ms if len(parts) == 1 else min(z3_ms, 5000))
+    if st == "unknown" and first_ms < z3_ms:
+        if os.environ.get("PYVC_DUMP"):
+            open(os.path.join(os.environ["PYVC_DUMP"], f"vc_{abs(hash(ob.name)) % 10**8}_early.smt2"), "w").write(f"; {ob.name} path={getattr(ob, 'path', None)}\n" + s.to_smt2())
+        try:
+            res, out = run_cvc5(s.to_smt2(), cvc5_ms)
+        except Exception as e:
+            res, out = "unknown", str(e)
+        if res == "unsat":
+            ob.status, ob.solver, ob.ms = "proved", "cvc5", (time.time() - t0) * 1000
+            return ob
+        if res == "sat":
+            ob.status, ob.solver, ob.ms, ob.model = "refuted", "cvc5", (time.time() - t0) * 1000, {"_cvc5": out}
+            return ob
+        st, model, reason, s = _z3_try(ob.pc, defs, f, z3_ms)
+        use_cvc5 = False
+    if st == "unknown" and len(parts) > 1:
+        sts = []
+        for p_ in parts:
+            st_p, m_p, r_p, s_p = _z3_try(ob.pc, defs, p_, z3_ms)
+            if st_p == "unknown" and use_cvc5:
+                try:
+                    res, out = run_cvc5(s_p.to_smt2(), cvc5_ms)
+                except Exception as e:
+                    res, out = "unknown", str(e)
+                st_p = {"unsat": "proved", "sat": "refuted"}.get(res, "unknown")
+                if st_p == "refuted":
+                    m_p = {"_cvc5": out}
+            sts.append(st_p)
+            if st_p == "refuted":
+                st, model = "refuted", m_p
+                break
+            if st_p == "unknown":
+                reason = r_p          # keep looking: another conjunct may be refutable
+        else:
+            st = "proved" if all(x == "proved" for x in sts) else "unknown"
+        if st == "unknown":
+            reason = reason or "a conjunct stayed undecided"
     ob.ms = (time.time() - t0) * 1000
-    if r == z3.unsat:
+    if st == "proved":
         ob.status, ob.solver = "proved", "z3"
         return ob
-    if r == z3.sat:
-        ob.status, ob.solver = "refuted", "z3"
-        try:
-            ob.model = model_to_dict(s.model())
-        except Exception:
-            ob.model = {}
+    if st == "refuted":
+        ob.status, ob.solver, ob.model = "refuted", "z3", model or {}
         return ob
-    ob.reason = f"z3: {s.reason_unknown()}"
+    ob.reason = reason
     if os.environ.get("PYVC_DUMP"):
-        open(os.path.join(os.environ["PYVC_DUMP"], f"vc_{abs(hash(ob.name)) % 10**8}.smt2"), "w").write(s.to_smt2())
+        open(os.path.join(os.environ["PYVC_DUMP"], f"vc_{abs(hash(ob.name)) % 10**8}.smt2"), "w").write(f"; {ob.name} path={getattr(ob, 'path', None)}\n" + s.to_smt2())
     if use_cvc5:
         t1 = time.time()
         try:
